@@ -129,6 +129,8 @@ def grads_bitwise_equal(a: dict[str, torch.Tensor],
 
 
 def rel_diff(a: torch.Tensor, b: torch.Tensor) -> float:
+    if a.shape != b.shape:
+        return float('inf')
     a64, b64 = a.double(), b.double()
     d = (a64 - b64).norm().item()
     n = max(a64.norm().item(), b64.norm().item(), 1e-30)
